@@ -844,8 +844,10 @@ func ruleGR6(c *Ctx) *rule {
 			n++
 		}
 		for _, in := range b.Instrs {
-			if in == ssa.Instruction(rl.X) {
-				n++
+			for _, x := range rl.Xs {
+				if in == ssa.Instruction(x) {
+					n++
+				}
 			}
 		}
 		if n > 2 {
